@@ -240,6 +240,14 @@ def merge_study_metadata(
   )
 
 
+def _same_trial_id(trial_id: str, other: str) -> bool:
+  """True if both decimal strings name the same Trial ('02' and '2' do)."""
+  try:
+    return int(trial_id) == int(other)
+  except ValueError:
+    return trial_id == other
+
+
 def merge_trial_metadata(
     trial_proto: study_pb2.Trial,
     new_metadata: Iterable[vizier_service_pb2.UnitMetadataUpdate],
@@ -256,7 +264,7 @@ def merge_trial_metadata(
   for kv in trial_proto.metadata:
     metadata_dict[(kv.ns, kv.key)] = kv
   for md_update in new_metadata:
-    if md_update.trial_id == trial_proto.id:
+    if _same_trial_id(md_update.trial_id, trial_proto.id):
       metadata_dict[(md_update.metadatum.ns, md_update.metadatum.key)] = (
           md_update.metadatum
       )
